@@ -170,11 +170,14 @@ func (w *World) writeSet(fn *ssa.Function, g *Gen) *WriteSet {
 	}
 	w.wsBusy[fn] = true
 	ws := &WriteSet{Vars: map[string]Sort{}}
+	savedScope := freshScope
+	freshScope = nil
 	for _, b := range fn.Blocks {
 		for _, in := range b.Instrs {
-			w.instrWrites(in, ws, g)
+			w.instrWrites(in, ws, nil)
 		}
 	}
+	freshScope = savedScope
 	delete(w.wsBusy, fn)
 	w.wsMemo[fn] = ws
 	return ws
@@ -209,18 +212,22 @@ func (w *World) instrWrites(in ssa.Instruction, ws *WriteSet, g *Gen) {
 		// the havoc must cover them
 		pt := x.Type().Underlying().(*types.Pointer).Elem()
 		if isStruct(pt) {
-			addStructVars(ws, pt)
+			tmp := &WriteSet{Vars: map[string]Sort{}}
+			addStructVars(tmp, pt)
+			for n, s := range tmp.Vars {
+				ws.addFresh(n, s)
+			}
 		} else if at, isArr := pt.Underlying().(*types.Array); isArr {
-			ws.add(elemVar(at.Elem()), ArrSort(SInt, ArrSort(SInt, elemSort(at.Elem()))))
+			ws.addFresh(elemVar(at.Elem()), ArrSort(SInt, ArrSort(SInt, elemSort(at.Elem()))))
 		} else {
-			ws.add(cellVar(pt), ArrSort(SInt, sortOf(pt)))
+			ws.addFresh(cellVar(pt), ArrSort(SInt, sortOf(pt)))
 		}
 	case *ssa.MakeMap:
 		mt := x.Type().Underlying().(*types.Map)
-		ws.add(mapDomVar(mt), ArrSort(SInt, ArrSort(sortOf(mt.Key()), SBool)))
+		ws.addFresh(mapDomVar(mt), ArrSort(SInt, ArrSort(sortOf(mt.Key()), SBool)))
 	case *ssa.MakeSlice:
 		et := x.Type().Underlying().(*types.Slice).Elem()
-		ws.add(elemVar(et), ArrSort(SInt, ArrSort(SInt, elemSort(et))))
+		ws.addFresh(elemVar(et), ArrSort(SInt, ArrSort(SInt, elemSort(et))))
 	case *ssa.Range:
 		if _, ok := x.X.Type().Underlying().(*types.Map); ok && g != nil {
 			// seen-set of this iterator: named at generation time
@@ -249,9 +256,15 @@ func (w *World) instrWrites(in ssa.Instruction, ws *WriteSet, g *Gen) {
 		}
 	case *ssa.Send, *ssa.Select:
 		w.interferenceWrites(ws, g)
+		if _, ok := w.specs.Ghosts["slept"]; ok {
+			ws.add("G.slept", SInt)
+		}
 	case *ssa.UnOp:
 		if x.Op == token.ARROW {
 			w.interferenceWrites(ws, g)
+			if _, ok := w.specs.Ghosts["slept"]; ok {
+				ws.add("G.slept", SInt)
+			}
 		}
 	}
 }
@@ -294,7 +307,41 @@ func (w *World) interferenceWrites(ws *WriteSet, g *Gen) {
 	}
 }
 
+// freshRoot: the address is inside an object allocated by this very function.
+// freshScope restricts which allocations count as fresh (loop bodies); nil = the whole function.
+var freshScope map[*ssa.BasicBlock]bool
+
+func freshRoot(addr ssa.Value) bool {
+	for {
+		switch a := addr.(type) {
+		case *ssa.Alloc:
+			return freshScope == nil || freshScope[a.Block()]
+		case *ssa.FieldAddr:
+			addr = a.X
+		case *ssa.IndexAddr:
+			if _, isPtr := a.X.Type().Underlying().(*types.Pointer); !isPtr {
+				return false
+			}
+			addr = a.X
+		default:
+			return false
+		}
+	}
+}
+
 func (w *World) ptrWrites(addr ssa.Value, ws *WriteSet) {
+	if freshRoot(addr) {
+		tmp := &WriteSet{Vars: map[string]Sort{}}
+		w.ptrWrites2(addr, tmp)
+		for n, s := range tmp.Vars {
+			ws.addFresh(n, s)
+		}
+		return
+	}
+	w.ptrWrites2(addr, ws)
+}
+
+func (w *World) ptrWrites2(addr ssa.Value, ws *WriteSet) {
 	pt := addr.Type().Underlying().(*types.Pointer).Elem()
 	switch a := addr.(type) {
 	case *ssa.FieldAddr:
@@ -394,7 +441,7 @@ func (w *World) callWrites(c *ssa.CallCommon, ws *WriteSet, g *Gen) {
 			w.interferenceWrites(ws, g)
 		}
 		if ct.HasAssigns {
-			for _, d := range ct.Assigns {
+			for _, d := range ct.allAssigns() {
 				names, all := w.designatorVars(d, fn, ct)
 				if all {
 					ws.All, ws.Why = true, "assigns "+d+" of "+key
@@ -855,7 +902,7 @@ func nestedStore(arr string, idx []string, v string) string {
 func (g *Gen) frameObligations(exit *Heap, guard string, pos string) {
 	env := g.envAt(g.entry, nil) // designators are evaluated in the pre-state
 	allowed := map[string][][]string{} // var -> list of allowed index paths (nil entry = whole var)
-	for _, d := range g.contract.Assigns {
+	for _, d := range g.contract.allAssigns() {
 		if strings.TrimSpace(d) == "everything" {
 			return
 		}
